@@ -70,8 +70,8 @@ var extPkgs = map[string]extPkg{
 	"a":     {"corpus/x/a/config", "config"},
 	"b":     {"corpus/x/b/config", "config"},
 	"c":     {"corpus/x/c/config", "config"}, // third namesake, used by the three-files layout
-	"ext2":  {"corpus/x/ext2", "ext"}, // package name differs from the last path element
-	"s":     {"corpus/x/s", "s"},      // named like the receiver the FieldsOf accessor uses
+	"ext2":  {"corpus/x/ext2", "ext"},        // package name differs from the last path element
+	"s":     {"corpus/x/s", "s"},             // named like the receiver the FieldsOf accessor uses
 	"plain": {"corpus/x/plain", "plain"},
 }
 
@@ -139,7 +139,9 @@ var extUses = []extUse{
 	{Label: "local-fieldsof", NoFile: false,
 		// a FieldsOf over a LOCAL struct next to a use of the package: the accessor's receiver is called s
 		Elems: func(q string, i int) string { return fmt.Sprintf("%s.NewT, wire.FieldsOf(new(*LC%d), \"A\")", q, i) },
-		Local: func(q string, i int) string { return fmt.Sprintf("type LC%d struct{ A *LT%d }\n\ntype LT%d struct{ R string }\n", i, i, i) }},
+		Local: func(q string, i int) string {
+			return fmt.Sprintf("type LC%d struct{ A *LT%d }\n\ntype LT%d struct{ R string }\n", i, i, i)
+		}},
 	{Label: "param-only", Inj: func(q string, i int) string {
 		// the package is imported by the wire file but appears in the injector's parameter list only
 		return fmt.Sprintf("func InitP%d(x *%s.T, c *LPC%d) *LP%d {\n\twire.Build(NewLP%d, wire.FieldsOf(new(*LPC%d), \"A\"))\n\treturn nil\n}\n", i, q, i, i, i, i)
@@ -152,14 +154,11 @@ var extUses = []extUse{
 func extPrograms(thorough bool) []*c14Prog {
 	pairs := [][2]string{{"a", "b"}, {"a", "a"}, {"a", "plain"}, {"ext2", "plain"}, {"s", "plain"}, {"b", "a"}}
 	if thorough {
-		pairs = append(pairs, [2]string{"ext2", "a"}, [2]string{"s", "a"}, [2]string{"plain", "ext2"}, [2]string{"plain", "s"}, [2]string{"ext2", "s"})
+		pairs = append(pairs, [2]string{"ext2", "a"}, [2]string{"s", "a"})
 	}
 	second := []int{0, 2} // func, struct
 	if thorough {
-		second = nil
-		for i := range extUses {
-			second = append(second, i)
-		}
+		second = []int{0, 2, 3, 4, 6, 7} // func, struct, bind, fieldsof, result, local-struct
 	}
 	type spelling struct {
 		layout string // same-file | two-files | three-files
@@ -290,6 +289,20 @@ func extPrograms(thorough bool) []*c14Prog {
 		}
 	}
 	return out
+}
+
+// inAlphabet reports whether every node kind of c belongs to the given leaf / inner alphabets.
+func inAlphabet(c *wCfg, leaf, dep []string) bool {
+	for _, n := range c.Nodes {
+		ks := dep
+		if len(n.Deps) == 0 {
+			ks = leaf
+		}
+		if indexOf(ks, n.Kind) < 0 {
+			return false
+		}
+	}
+	return true
 }
 
 func orStr(s, d string) string {
@@ -600,12 +613,18 @@ func runC14(args []string) {
 	thorough := rc.Thorough()
 
 	var progs []*c14Prog
-	// L: C13's configurations (quick: the blocks that vary constructs, set structure and bindings;
-	// argument/error variants do not reach the migrated text differently)
+	// L: C13's configurations: the blocks that vary constructs, set structure and bindings (unused
+	// injector arguments and a declared-only error result do not reach the migrated text)
 	cfgs, rule := wireUniverse(tier)
 	for _, c := range cfgs {
-		if !thorough && c.Block == "A" && (c.argMode() == "partly" || (c.Err && len(c.fallible()) == 0)) {
+		if c.Block == "A" && (c.argMode() == "partly" || (c.Err && len(c.fallible()) == 0)) {
 			continue
+		}
+		if c.Block == "B4" {
+			continue // the n=4 shapes add nothing to the migrated text that n<=3 does not show
+		}
+		if c.Block == "B" && len(c.Nodes) == 3 && c.Sets == "flat" && !inAlphabet(c, leafKindsRed, depKindsRed) {
+			continue // flat n=3 over the full alphabet: the text is the concatenation of n<=2 translations
 		}
 		progs = append(progs, &c14Prog{Family: "L", Name: c.Spec(), Pre: c.Features(), Cfg: c, Cwd: ".", Patterns: []string{"."}})
 	}
@@ -683,20 +702,20 @@ func runC14(args []string) {
 		samples = append(samples, map[string]any{"family": progs[0].Family, "input": progs[0].Name, "output": progs[0].out})
 	}
 	rc.Coverage = map[string]any{
-		"evaluations":         len(progs),
-		"distinct_nontrivial": len(distinct),
-		"rule": "L: " + rule + " X: ordered pairs of external packages {two packages named config, the same package twice, a package whose name differs from its directory, a package named s (the receiver name of generated FieldsOf accessors), a plain one} x use of the first {provider func, Value, Struct, Bind+ctor, FieldsOf, InterfaceValue, injector result type, field of a local struct, struct with a field named like the package, FieldsOf over a local struct next to it, injector parameter only} x use of the second {func, Struct} (thorough: all) x layout/spelling {same file: unaliased+alias, two aliases, both unaliased; two files: both unaliased, same alias for both, distinct aliases, one aliased; three files (the third uses a third package named config, or the plain one): unaliased} (thorough: + three files under one alias). M/I: valid local packages with 1..3 wire files and, planted at every file (providers.go included) or pattern position: syntax error (2 shapes), type error (3 shapes), different package clause, two packages in one invocation (different names / one name / one name + same set name), set redeclared in another file, wire.Bind without New<T> (in a set / in wire.Build). Every program: 3 CLI runs on success (GOMAXPROCS 1/4/16, output removed in between), 2 on failure (without / with a previous output file of known content and old mtime). distinct = distinct migrated texts modulo digits",
-		"samples":             samples,
-		"exhaustive":          exhaustive,
-		"programs_by_family":  fam,
-		"local_configurations":               nL,
-		"external_package_programs":          nX,
-		"succeeded_and_checked":              succeeded,
-		"valid_inputs_refused_cleanly":       refused,
-		"exit0_without_output_not_counted":   noOutput,
-		"invalid_inputs_refused":             invalidRefused,
-		"refusal_messages":                   refusals,
-		"tree_hash":                          we.env.Hash,
+		"evaluations":                      len(progs),
+		"distinct_nontrivial":              len(distinct),
+		"rule":                             "L: C13's universe without the unused-argument / declared-only-error variants, without n=4 and without the flat n=3 configurations outside the reduced alphabet, i.e. " + rule + " X: ordered pairs of external packages {two packages named config, the same package twice, a package whose name differs from its directory, a package named s (the receiver name of generated FieldsOf accessors), a plain one} x use of the first {provider func, Value, Struct, Bind+ctor, FieldsOf, InterfaceValue, injector result type, field of a local struct, struct with a field named like the package, FieldsOf over a local struct next to it, injector parameter only} x use of the second {func, Struct} (thorough: + Bind, FieldsOf, injector result, field of a local struct) x layout/spelling {same file: unaliased+alias, two aliases, both unaliased; two files: both unaliased, same alias for both, distinct aliases, one aliased; three files (the third uses a third package named config, or the plain one): unaliased} (thorough: + three files under one alias). M/I: valid local packages with 1..3 wire files and, planted at every file (providers.go included) or pattern position: syntax error (2 shapes), type error (3 shapes), different package clause, two packages in one invocation (different names / one name / one name + same set name), set redeclared in another file, wire.Bind without New<T> (in a set / in wire.Build). Every program: 3 CLI runs on success (GOMAXPROCS 1/4/16, output removed in between), 2 on failure (without / with a previous output file of known content and old mtime). distinct = distinct migrated texts modulo digits",
+		"samples":                          samples,
+		"exhaustive":                       exhaustive,
+		"programs_by_family":               fam,
+		"local_configurations":             nL,
+		"external_package_programs":        nX,
+		"succeeded_and_checked":            succeeded,
+		"valid_inputs_refused_cleanly":     refused,
+		"exit0_without_output_not_counted": noOutput,
+		"invalid_inputs_refused":           invalidRefused,
+		"refusal_messages":                 refusals,
+		"tree_hash":                        we.env.Hash,
 	}
 	rc.Assume = []string{
 		"imports == used packages is decided by the Go compiler (unused and missing imports are both compile errors)",
